@@ -329,4 +329,41 @@ def vegasIterPrologue (a : VegasArrays) (ndim nd : Nat) : VegasArrays :=
            d := fun i j => if j < ndim ∧ i < nd then 0 else a.d i j,
            di := fun i j => if j < ndim ∧ i < nd then 0 else a.di i j }
 
+/-! ### Vegas: stratification cells (`ng`, `k`, `npg`) and the cell odometer `kg` -/
+
+structure VegasCells where
+  ng : Nat      -- cells per axis: the largest value ever stored in `kg[j]`
+  nd : Nat      -- grid bins per axis: the largest value ever stored in `ia[j]`
+  npg : Nat     -- points per cell
+  k : Nat       -- number of cells `ng^ndim`
+  deriving DecidableEq, Repr
+
+/-- cell arithmetic of the `init ≤ 2` block (`mds ≠ 0`, NDMX = 50) as a function of
+    `ng0 = int(pow(ncall/2 + 0.25, 1/ndim))`, the budget and the dimension -/
+def vegasCells (ng0 ncall ndim : Nat) : VegasCells :=
+  let ng := if 2 * ng0 ≥ 50 then (ng0 / 50 + 1) * (ng0 / (ng0 / 50 + 1)) else ng0
+  let nd := if 2 * ng0 ≥ 50 then ng0 / (ng0 / 50 + 1) else 50
+  ⟨ng, nd, max (ncall / ng ^ ndim) 2, ng ^ ndim⟩
+
+/-- integrand evaluations of one call: `itmx = 5` sweeps over all cells with `npg` points each -/
+def vegasEvaluations (c : VegasCells) : Nat := 5 * c.npg * c.k
+
+/-- one advance of the odometer on the REVERSED index list (last axis first):
+    `for(k = ndim-1; k >= 0; k--) { kg[k] %= ng; if(++kg[k] != 1) break; }`; `true` = `k < 0` (sweep finished) -/
+def odoRev (ng : Nat) : List Nat → List Nat × Bool
+  | [] => ([], true)
+  | c :: rest =>
+    if c % ng ≠ 0 then ((c % ng + 1) :: rest, false)
+    else (1 :: (odoRev ng rest).1, (odoRev ng rest).2)
+
+/-- number of cells visited by the `for(;;)` sweep that starts with the odometer at `kg` -/
+def sweepLen (ng : Nat) : Nat → List Nat → Nat
+  | 0, _ => 0
+  | f + 1, kg => if (odoRev ng kg).2 then 1 else 1 + sweepLen ng f (odoRev ng kg).1
+
+/-- position of the odometer in the sweep (little-endian on the reversed list) -/
+def odoVal (ng : Nat) : List Nat → Nat
+  | [] => 0
+  | c :: rest => (c - 1) + ng * odoVal ng rest
+
 end Lp.C14
